@@ -212,7 +212,7 @@ fn history(seed: u64, idx: u64, virtual_clock: bool) -> Local {
 }
 
 pub fn run(ctx: &mut Ctx) {
-    let n = if ctx.slow_tool { 12 } else { ctx.tier.pick(480u64, 6400u64) };
+    let n = if ctx.slow_tool { 320 } else { ctx.tier.pick(480u64, 6400u64) };
     let mine: Vec<u64> = (0..n).filter(|i| ctx.take("history", *i)).collect();
     let seed = ctx.seed;
     let slow = ctx.slow_tool;
